@@ -53,6 +53,9 @@ func report(o opts, e *Engine, prop, tier string, seed int, sel []*Obligation, f
 			} else if k, ok := knownByObl[base]; ok {
 				lines = append(lines, fmt.Sprintf("KNOWN-FINDING: property=%s %s [%s]", prop, k.What, ob.ID))
 				ev.Status = "known-finding(" + ob.Status + ")"
+			} else if k, ok := knownCrash(knownByObl, ob.ID); ok {
+				lines = append(lines, fmt.Sprintf("KNOWN-FINDING: property=%s %s [%s]", prop, k.What, ob.ID))
+				ev.Status = "known-finding(" + ob.Status + ")"
 			} else {
 				violations++
 				rp := filepath.Join(replayDir, sanitizeFile(ob.ID)+".json")
@@ -180,7 +183,18 @@ func report(o opts, e *Engine, prop, tier string, seed int, sel []*Obligation, f
 	os.MkdirAll(filepath.Join(o.out, "evidence"), 0o755)
 	data, _ := json.MarshalIndent(evd, "", " ")
 	os.WriteFile(filepath.Join(o.out, "evidence", prop+".json"), data, 0o644)
+	seenLine := map[string]bool{}
 	for _, l := range lines {
+		key := l
+		if strings.HasPrefix(l, "KNOWN-FINDING:") {
+			if i := strings.LastIndex(l, " ["); i > 0 {
+				key = l[:i] // one line per listed finding, not per failing call boundary
+			}
+		}
+		if seenLine[key] {
+			continue
+		}
+		seenLine[key] = true
 		fmt.Println(l)
 	}
 	fmt.Printf("%s %s: %d obligations, %d discharged, %d violations, %.1fs (solver %.1fs)\n", prop, tier, len(sel), discharged, violations, wall, solverTime)
@@ -236,4 +250,15 @@ func writeReplay(path, prop string, ob *Obligation, confirmed bool, detail map[s
 	}
 	data, _ := json.MarshalIndent(m, "", " ")
 	os.WriteFile(path, data, 0o644)
+}
+
+// knownCrash: a crash-invariant finding covers every call boundary at which that invariant fails.
+func knownCrash(known map[string]KnownFinding, id string) (KnownFinding, bool) {
+	if i := strings.Index(id, "#crash:"); i >= 0 {
+		if j := strings.Index(id[i:], "@"); j >= 0 {
+			k, ok := known[id[:i+j]]
+			return k, ok
+		}
+	}
+	return KnownFinding{}, false
 }
